@@ -115,7 +115,10 @@ func isReservedJavaKeyword(input string) bool {
 	switch input {
 	case "static", "abstract", "enum", "class", "if", "else", "switch", "final", "public", "private", "protected", "package", "continue", "new", "for", "assert",
 		"do", "default", "goto", "synchronized", "boolean", "double", "int", "short", "char", "float", "long", "byte", "break", "throw", "throws", "this",
-		"implements", "transient", "return", "catch", "extends", "case", "try", "void", "volatile", "super", "native", "finally", "instanceof", "import", "while":
+		"implements", "transient", "return", "catch", "extends", "case", "try", "void", "volatile", "super", "native", "finally", "instanceof", "import", "while",
+		"interface", "const", "strictfp",
+		// literals: not keywords, but not identifiers either
+		"true", "false", "null":
 		return true
 	}
 	return false
